@@ -18,6 +18,17 @@ checkout `H` (own branch, possibly bound to the master).  Model of
 
 Every tip write (`set_last_revision_info` that changes the tip) is pushed onto
 `log` (newest first) with the branch and the operation kind that caused it.
+
+A SECOND heavyweight checkout `H2` of the same master (own branch `loc2`, own
+tree `tH2`, own binding) is obtained by symmetry: `Op.onH2 op` runs `op` with
+the roles of the two checkouts exchanged (`swapH`).  The master itself can be
+bound to the third branch (`bindM`): a commit through a checkout is then
+refused with `CommitToDoubleBoundBranch`; the operations that would involve the
+master's own master answer `unmodelled` and are never generated.
+
+The revision graph is a list NEWEST ENTRY FIRST; the parents of an entry are
+looked up among the older entries only, so that ancestry and revno are
+structurally recursive (no fuel) - the representation of C21.
 -/
 namespace BreezyVerif.C23
 
@@ -25,13 +36,15 @@ abbrev Rev := String
 
 def null : Rev := "null:"
 
+abbrev Graph := List (Rev × List Rev)
+
 structure Tree where
   basis : Rev
   merges : List Rev
   deriving DecidableEq, Repr
 
 inductive Br where
-  | master | loc
+  | master | loc | loc2
   deriving DecidableEq, Repr
 
 inductive Cause where
@@ -45,7 +58,7 @@ structure Entry where
   deriving DecidableEq, Repr
 
 structure St where
-  graph : List (Rev × List Rev)
+  graph : Graph
   master : Rev
   loc : Rev
   bound : Bool
@@ -56,6 +69,10 @@ structure St where
   other : Rev := null       -- tip of an independent branch `O` (own repository and tree)
   tO : Tree := ⟨null, []⟩
   third : Rev := null       -- tip of a third branch `P`, the target of `push`
+  loc2 : Rev := null        -- the second heavyweight checkout `H2`: branch tip,
+  bound2 : Bool := true     --   binding to the master,
+  tH2 : Tree := ⟨null, []⟩  --   working tree
+  masterBound : Bool := false   -- the master itself is bound (to `P`)
   deriving DecidableEq, Repr
 
 def init : St :=
@@ -64,36 +81,27 @@ def init : St :=
 
 /-! ### graph -/
 
-def parentsOf (g : List (Rev × List Rev)) (r : Rev) : List Rev :=
-  match g.find? (·.1 == r) with
-  | some x => x.2
-  | none => []
-
-/-- all ancestors of `r` including `r` (fuel = number of revisions + 1) -/
-def ancestorsFuel (g : List (Rev × List Rev)) : Nat → List Rev → List Rev → List Rev
-  | 0, _, seen => seen
-  | n + 1, todo, seen =>
-    let new := (todo.filter fun r => !seen.contains r).eraseDups
-    if new.isEmpty then seen
-    else ancestorsFuel g n (new.flatMap (parentsOf g)) (seen ++ new)
-
-def ancestors (g : List (Rev × List Rev)) (r : Rev) : List Rev :=
-  ancestorsFuel g (g.length + 1) [r] []
+/-- all ancestors of `r`, `r` included (structural: parents live in the tail) -/
+def anc : Graph → Rev → List Rev
+  | [], r => [r]
+  | (n, ps) :: g, r => if n = r then r :: ps.flatMap (fun p => anc g p) else anc g r
 
 /-- `graph.is_ancestor(a, b)`: null is an ancestor of everything -/
-def isAncestor (g : List (Rev × List Rev)) (a b : Rev) : Bool :=
-  a == null || (ancestors g b).contains a
+def isAncestor (g : Graph) (a b : Rev) : Bool :=
+  a == null || (anc g b).contains a
 
-/-- length of the left-hand history -/
-def revnoFuel (g : List (Rev × List Rev)) : Nat → Rev → Nat
-  | 0, _ => 0
-  | n + 1, r =>
-    if r == null then 0 else
-    match parentsOf g r with
-    | [] => 1
-    | p :: _ => 1 + revnoFuel g n p
+/-- length of the left-hand history of a revision -/
+def revnoS : Graph → Rev → Nat
+  | [], _ => 0
+  | (n, ps) :: g, r =>
+    if n = r then
+      match ps with
+      | [] => 1
+      | p :: _ => 1 + revnoS g p
+    else revnoS g r
 
-def revno (g : List (Rev × List Rev)) (r : Rev) : Nat := revnoFuel g (g.length + 1) r
+/-- the revno of a tip: `null:` has revno 0 -/
+def revno (g : Graph) (r : Rev) : Nat := if r = null then 0 else revnoS g r
 
 /-! ### operations -/
 
@@ -112,6 +120,9 @@ inductive Op where
   | pullOther (w : Who) (stop : Option Rev) (overwrite localOnly : Bool)
                                       -- in w's tree: `wt.pull(O, stop_revision=stop, overwrite=…, local=…)`
   | push (w : Who)                    -- `branch_of(w).push(P)`
+  | bindM                             -- bind the master to the third branch `P`
+  | unbindM
+  | onH2 (op : Op)                    -- `op` in the second heavyweight checkout (roles of H and H2 exchanged)
   deriving DecidableEq, Repr
 
 inductive Out where
@@ -120,6 +131,8 @@ inductive Out where
   | outOfDateTree
   | localRequiresBound
   | diverged
+  | doubleBound         -- CommitToDoubleBoundBranch
+  | unmodelled          -- an operation that involves the master's own master
   deriving DecidableEq, Repr
 
 /-- `work_tree.get_parent_ids()` -/
@@ -130,14 +143,15 @@ def Tree.parents (t : Tree) : List Rev :=
 unless the reference branch is empty -/
 def treeUpToDate (t : Tree) (ref : Rev) : Bool := ref == t.basis || ref == null
 
-def addRev (g : List (Rev × List Rev)) (r : Rev) (ps : List Rev) : List (Rev × List Rev) := g ++ [(r, ps)]
+def addRev (g : Graph) (r : Rev) (ps : List Rev) : Graph := (r, ps) :: g
 
 /-- commit in the heavyweight checkout -/
 def commitH (s : St) (r : Rev) (localOnly : Bool) : St × Out :=
   if localOnly && !s.bound then (s, .localRequiresBound)
   else if !localOnly && s.bound then
-    -- _check_bound_branch: the master is the reference branch
-    if s.loc != s.master then (s, .boundOutOfDate)
+    -- _check_bound_branch: the master is the reference branch; it must not be bound itself
+    if s.masterBound then (s, .doubleBound)
+    else if s.loc != s.master then (s, .boundOutOfDate)
     else if !treeUpToDate s.tH s.master then (s, .outOfDateTree)
     else
       ({ s with graph := addRev s.graph r s.tH.parents, master := r, loc := r, tH := ⟨r, []⟩,
@@ -151,7 +165,8 @@ def commitH (s : St) (r : Rev) (localOnly : Bool) : St × Out :=
 
 /-- commit in the master's own tree or in the lightweight checkout -/
 def commitMaster (s : St) (w : Who) (r : Rev) (localOnly : Bool) : St × Out :=
-  if localOnly then (s, .localRequiresBound)
+  if s.masterBound then (s, .unmodelled)
+  else if localOnly then (s, .localRequiresBound)
   else
     let t := if w == .M then s.tM else s.tL
     if !treeUpToDate t s.master then (s, .outOfDateTree)
@@ -188,7 +203,7 @@ def pullH (s : St) : St × Out :=
 
 /-- `GenericInterBranch._update_revisions(stop_revision, overwrite)`: the new
 tip of the target, `none` = `DivergedBranches` -/
-def updateRevisions (g : List (Rev × List Rev)) (target source : Rev) (stop : Option Rev) (ow : Bool) :
+def updateRevisions (g : Graph) (target source : Rev) (stop : Option Rev) (ow : Bool) :
     Option Rev :=
   let st := stop.getD source
   if stop.isNone && source == null then some target          -- nothing to pull from an empty branch
@@ -208,6 +223,7 @@ with the same stop revision**, then the local branch; if the local pull then
 finds the branches diverged the master has already moved -/
 def pullOtherH (s : St) (stop : Option Rev) (ow localOnly : Bool) : St × Out :=
   if localOnly && !s.bound then (s, .localRequiresBound)
+  else if s.masterBound && s.bound && !localOnly then (s, .unmodelled)
   else
     let viaMaster := s.bound && !localOnly
     match (if viaMaster then updateRevisions s.graph s.master s.other stop ow else some s.master) with
@@ -223,7 +239,8 @@ def pullOtherH (s : St) (stop : Option Rev) (ow localOnly : Bool) : St × Out :=
 /-- the same in the master's tree or the lightweight checkout (the branch is the
 master, which is not bound) -/
 def pullOtherMaster (s : St) (w : Who) (stop : Option Rev) (ow localOnly : Bool) : St × Out :=
-  if localOnly then (s, .localRequiresBound)
+  if s.masterBound then (s, .unmodelled)
+  else if localOnly then (s, .localRequiresBound)
   else
     match updateRevisions s.graph s.master s.other stop ow with
     | none => (s, .diverged)
@@ -238,12 +255,25 @@ def pushTo (s : St) (src : Rev) : St × Out :=
   | none => (s, .diverged)
   | some p' => ({ s with third := p' }, .ok)
 
+def Entry.swap (e : Entry) : Entry :=
+  { e with br := match e.br with | .loc => .loc2 | .loc2 => .loc | .master => .master }
+
+/-- exchange the roles of the two heavyweight checkouts -/
+def swapH (s : St) : St :=
+  { s with loc := s.loc2, loc2 := s.loc, bound := s.bound2, bound2 := s.bound, tH := s.tH2, tH2 := s.tH,
+           log := s.log.map Entry.swap }
+
+/-- `WorkingTree.update()` in the master's tree / the lightweight checkout -/
+def updateMasterTree (s : St) (w : Who) : St × Out :=
+  if s.masterBound then (s, .unmodelled)     -- would pull the master from ITS master first
+  else if w == .M then ({ s with tM := updateTree s.tM s.master none }, .ok)
+  else ({ s with tL := updateTree s.tL s.master none }, .ok)
+
 def step (s : St) : Op → St × Out
   | .commit .H r l => commitH s r l
   | .commit w r l => commitMaster s w r l
   | .update .H => updateH s
-  | .update .M => ({ s with tM := updateTree s.tM s.master none }, .ok)
-  | .update .L => ({ s with tL := updateTree s.tL s.master none }, .ok)
+  | .update w => updateMasterTree s w
   | .pull => pullH s
   | .bind => ({ s with bound := true }, .ok)
   | .unbind => ({ s with bound := false }, .ok)
@@ -255,19 +285,22 @@ def step (s : St) : Op → St × Out
   | .pullOther w stop ow l => pullOtherMaster s w stop ow l
   | .push .H => pushTo s s.loc
   | .push _ => pushTo s s.master
+  | .bindM => ({ s with masterBound := true }, .ok)
+  | .unbindM => ({ s with masterBound := false }, .ok)
+  | .onH2 op => ((swapH (step (swapH s) op).1), (step (swapH s) op).2)
 
 def run (s : St) : List Op → St
   | [] => s
   | op :: rest => run (step s op).1 rest
 
-/-- the log discipline of a bound commit (log is newest first): a local write
-caused by a bound commit comes directly after the master write of the same
-revision -/
+/-- the log discipline of a bound commit (log is newest first): a write to a checkout's
+own branch caused by a bound commit comes directly after the master write of
+the same revision -/
 def masterFirst : List Entry → Bool
   | [] => true
-  | [e] => !(e.br == .loc && e.cause == .boundCommit)
+  | [e] => !(e.br != .master && e.cause == .boundCommit)
   | e :: m :: rest =>
-    if e.br == .loc && e.cause == .boundCommit then
+    if e.br != .master && e.cause == .boundCommit then
       m.br == .master && m.cause == .boundCommit && m.rev == e.rev && masterFirst rest
     else masterFirst (m :: rest)
 
